@@ -31,6 +31,12 @@
 (*                  helicity sets: a builder of ANOTHER reaction over the  *)
 (*                  same particles reads the entry).                       *)
 (*                                                                         *)
+(*   firstRx        the reaction of the first Formulate of the process;    *)
+(*                  decisive under deviation "ProcessWideMemo" (a helper   *)
+(*                  memoised process-wide on a key under which two         *)
+(*                  different reactions compare equal, e.g. reactions that *)
+(*                  differ in a particle label only).                      *)
+(*                                                                         *)
 (* Builders need not share the reaction: RxOf[b] names the reaction of     *)
 (* builder b (the same decay with complete / restricted helicity sets).    *)
 (***************************************************************************)
@@ -45,8 +51,8 @@ CONSTANTS Builders,     \* builder objects living in one process
           MaxOps,       \* bound on the length of a history
           Dev
 
-VARIABLES cfg, choice, perm, out, dpdCache, leaked, nops, nameOwner, dpdRx
-vars == <<cfg, choice, perm, out, dpdCache, leaked, nops, nameOwner, dpdRx>>
+VARIABLES cfg, choice, perm, out, dpdCache, leaked, nops, nameOwner, dpdRx, firstRx
+vars == <<cfg, choice, perm, out, dpdCache, leaked, nops, nameOwner, dpdRx, firstRx>>
 
 \* naming options of the amplitude name generator (builder.naming.insert_parent_helicities / insert_child_helicities)
 Namings == {"default", "parent", "nochild"}
@@ -64,27 +70,28 @@ Init == /\ cfg = [b \in Builders |-> DefaultCfg]
         /\ nops = 0
         /\ nameOwner \in Builders
         /\ dpdRx = [r \in Refs |-> ""]
+        /\ firstRx = ""
 
 Tick == nops < MaxOps /\ nops' = nops + 1
 Key(b) == <<RxOf[b], cfg[b], choice[b], perm[b]>>
 
 SetAlign(b, a) == /\ Tick /\ cfg' = [cfg EXCEPT ![b].align = a]
-                  /\ UNCHANGED <<choice, perm, out, dpdCache, leaked, nameOwner, dpdRx>>
+                  /\ UNCHANGED <<choice, perm, out, dpdCache, leaked, nameOwner, dpdRx, firstRx>>
 SetStable(b, s) == /\ Tick /\ cfg' = [cfg EXCEPT ![b].stable = s]
-                   /\ UNCHANGED <<choice, perm, out, dpdCache, leaked, nameOwner, dpdRx>>
+                   /\ UNCHANGED <<choice, perm, out, dpdCache, leaked, nameOwner, dpdRx, firstRx>>
 SetScalar(b, x) == /\ Tick /\ cfg' = [cfg EXCEPT ![b].scalar = x]
-                   /\ UNCHANGED <<choice, perm, out, dpdCache, leaked, nameOwner, dpdRx>>
+                   /\ UNCHANGED <<choice, perm, out, dpdCache, leaked, nameOwner, dpdRx, firstRx>>
 SetCoup(b, x) == /\ Tick /\ cfg' = [cfg EXCEPT ![b].coup = x]
-                 /\ UNCHANGED <<choice, perm, out, dpdCache, leaked, nameOwner, dpdRx>>
+                 /\ UNCHANGED <<choice, perm, out, dpdCache, leaked, nameOwner, dpdRx, firstRx>>
 \* builder.naming.<flag> = ...: the generator rebuilds its parity-partner map
 SetNaming(b, x) == /\ Tick /\ cfg' = [cfg EXCEPT ![b].naming = x] /\ nameOwner' = b
-                   /\ UNCHANGED <<choice, perm, out, dpdCache, leaked, dpdRx>>
+                   /\ UNCHANGED <<choice, perm, out, dpdCache, leaked, dpdRx, firstRx>>
 \* dynamics.assign(name, builder): all decays of the resonance with that name
 Assign(b, n, t) == /\ Tick /\ choice' = [choice EXCEPT ![b][n] = t]
-                   /\ UNCHANGED <<cfg, perm, out, dpdCache, leaked, nameOwner, dpdRx>>
+                   /\ UNCHANGED <<cfg, perm, out, dpdCache, leaked, nameOwner, dpdRx, firstRx>>
 \* adapter.permutate_registered_topologies(): idempotent
 Permutate(b) == /\ Tick /\ perm' = [perm EXCEPT ![b] = TRUE]
-                /\ UNCHANGED <<cfg, choice, out, dpdCache, leaked, nameOwner, dpdRx>>
+                /\ UNCHANGED <<cfg, choice, out, dpdCache, leaked, nameOwner, dpdRx, firstRx>>
 
 SubstKey(b) == <<cfg[b].stable, cfg[b].scalar>>
 \* an inadmissible configuration makes formulate() raise after it has started filling its
@@ -106,7 +113,9 @@ Formulate(b) ==
          stale4 == "SharedNameMap" \in Dev /\ nameOwner # b /\ cfg[nameOwner].naming # cfg[b].naming
          \* the module-level DPD cache entry was built for another reaction over the same particles
          stale5 == "CrossReactionCache" \in Dev /\ usesDpd /\ dpdRx[a] \notin {"", RxOf[b]}
-     IN /\ out' = [out EXCEPT ![b] = [key |-> Key(b), stale |-> stale1 \/ stale2 \/ stale3 \/ stale4 \/ stale5]]
+         stale6 == "ProcessWideMemo" \in Dev /\ firstRx \notin {"", RxOf[b]}
+     IN /\ out' = [out EXCEPT ![b] = [key |-> Key(b), stale |-> stale1 \/ stale2 \/ stale3 \/ stale4 \/ stale5 \/ stale6]]
+        /\ firstRx' = IF firstRx = "" THEN RxOf[b] ELSE firstRx
         /\ dpdRx' = IF usesDpd /\ dpdRx[a] = "" THEN [dpdRx EXCEPT ![a] = RxOf[b]] ELSE dpdRx
         /\ dpdCache' = IF "DpdCacheAliasing" \in Dev /\ usesDpd /\ dpdCache[a] = <<>>
                        THEN [dpdCache EXCEPT ![a] = SubstKey(b)] ELSE dpdCache
